@@ -112,11 +112,39 @@ def _universe_batch(arg):
         c1 = _canon_triples(g)
         c2 = _canon_triples(g2)
         eq = (to_isomorphic(g) == to_isomorphic(g2))
-        sk = g.skolemize().de_skolemize()
-        sk_ok = iso(rows(sk), rows(g))
+        sk_ok = skolem_roundtrip(g, full=(len(edges) <= 10)) is None
         canon_iso = iso(c1, rows(g))
         out.append((mask, code, aut, d, d2 == d and eq, hash(c1), c1 == c2, sk_ok, canon_iso))
     return out
+
+
+def skolem_roundtrip(g, full=True):
+    """Every way of the API to skolemise and de-skolemise g; returns the name of the first variant whose result is not isomorphic to g (None if all are).
+    full=False: the default call only (used for the two large universes, whose graphs add nothing to what the API variants depend on)."""
+    r = rows(g)
+    if not iso(rows(g.skolemize().de_skolemize()), r):
+        return "default"
+    if not full:
+        return None
+    # results written into graphs supplied by the caller (empty, as a caller normally supplies them)
+    t, u = Graph(bind_namespaces="none"), Graph(bind_namespaces="none")
+    r1 = g.skolemize(new_graph=t)
+    r2 = t.de_skolemize(new_graph=u)
+    if r1 is not t or r2 is not u or not iso(rows(u), r) or any(isinstance(x, BNode) for tr in t for x in tr):
+        return "new_graph"
+    if rows(g) != r:
+        return "source-modified"
+    for kw in ({"authority": "http://ex.org"}, {"authority": "http://ex.org", "basepath": "/.well-known/genid/x/"}):
+        if not iso(rows(g.skolemize(**kw).de_skolemize()), r):
+            return "authority/basepath"
+    # one blank node at a time
+    for b in sorted({x for tr in g for x in tr if isinstance(x, BNode)}):
+        s1 = g.skolemize(bnode=b)
+        if not iso(rows(s1.de_skolemize()), r):
+            return "single-bnode"
+        if not iso(rows(s1.de_skolemize(uriref=b.skolemize())), r):
+            return "single-bnode,uriref"
+    return None
 
 
 def check_universe(ctx, kind, n):
@@ -194,7 +222,7 @@ def _decor_batch(cases):
         g2 = build_decorated(mask, dec, naming=1)
         r = rows(g)
         out.append((mask, di, repr(canon_rows(r)), _digest(g), _digest(g2), hash(_canon_triples(g)),
-                    _canon_triples(g) == _canon_triples(g2), iso(rows(g.skolemize().de_skolemize()), r)))
+                    _canon_triples(g) == _canon_triples(g2), skolem_roundtrip(g) is None))
     return out
 
 
